@@ -665,6 +665,32 @@ class SemantivaOrchestrator(ABC):
             if k not in params_out:
                 params_out[k] = serialize_json_safe(v)
                 source_out[k] = "default"
+        # Parameters that have a signature default are not "required" keys, but the
+        # node still resolves them (context wins over the default): report what it uses.
+        names_getter = getattr(node.processor, "get_processing_parameter_names", None)
+        try:
+            names = list(names_getter() or []) if callable(names_getter) else []
+        except Exception:
+            names = []
+        defaults_map = self._parameter_defaults(node.processor)
+        for k in names:
+            if k in params_out:
+                continue
+            info = defaults_map.get(k)
+            if isinstance(info, ParameterInfo):
+                default = info.default
+            elif isinstance(info, dict):
+                default = info.get("default", _NO_DEFAULT)
+            else:
+                default = _NO_DEFAULT
+            if default is _NO_DEFAULT:
+                continue
+            if k in ctx_view:
+                params_out[k] = serialize_json_safe(ctx_view[k])
+                source_out[k] = "context"
+            else:
+                params_out[k] = serialize_json_safe(default)
+                source_out[k] = "default"
         return params_out, source_out
 
     def _extra_pre_checks(
